@@ -588,7 +588,8 @@ def write_read(w, cfg):
         else:
             w.ensure('a zero total empties the stream', w.And(*[w.eq(v, 0.) for v in observe_raw(s).values()]))
         w.ensure('T, P unchanged', w.And(w.eq(s.T, T), w.eq(s.P, P)))
-        w.canary('canary: total unchanged', w.eq(getattr(s, name), {'F_mol': Fmol, 'F_mass': Fmass, 'F_vol': Fvol}[name] + x + 1))
+        k0 = next(k for k, v in old.items() if not _is_zero(v))
+        w.canary('canary: flows unchanged by setting a total', w.eq(now(*k0), old[k0]))
     elif empty:
         name = op.split('=')[0]
         r = attempt(lambda: setattr(s, name, x))
@@ -600,9 +601,11 @@ def write_read(w, cfg):
         arr = np.array(xs, dtype=object if w.symbolic else float)
         if op == 'set_flow(array)':
             name = 'mass'; f = pint_factor('lb/hr')[1]
-            if multi: s.set_flow(arr, 'lb/hr', (ph, ...))
+            # (a MultiStream is addressed by the phase alone: the documented key (phase, ...) raises TypeError in
+            #  MaterialIndexer.__setitem__ for every view, an indexing defect outside this property; see report)
+            if multi: s.set_flow(arr, 'lb/hr', ph)
             else: s.set_flow(arr, 'lb/hr')
-            back = s.get_flow('lb/hr', (ph, ...)) if multi else s.get_flow('lb/hr')
+            back = s.get_flow('lb/hr', ph) if multi else s.get_flow('lb/hr')
         else:
             name = op.split('=')[0]; f = 1.
             setattr(s, name, arr)
